@@ -131,6 +131,17 @@ func init() {
 			Eq(Eq(size, IntLit(0)), Eq(strLen(s), IntLit(0))), Le(IntLit(0), r), Le(r, IntLit(0x10FFFF))))
 		return tuple2(callee.Signature.Results(), &Val{T: r, Typ: types.Typ[types.Rune]}, &Val{T: size, Typ: intT})
 	}
+	prelude["unicode/utf8.DecodeRuneInString"] = func(x *Exec, st *State, callee *ssa.Function, args []*Val, pos token.Pos) *Val {
+		x.trusted["A-UTF8"] = true
+		s := args[0].T
+		w, c := utf8At(s, IntLit(0))
+		empty := Eq(strLen(s), IntLit(0))
+		b0 := strAt(s, IntLit(0))
+		x.ctx.assumeGlobal(st, Implies(Not(empty), And(Le(IntLit(1), w), Le(w, IntLit(4)), Le(w, strLen(s)),
+			Le(IntLit(0), c), Le(c, IntLit(0x10FFFF)),
+			Implies(Lt(b0, IntLit(0x80)), And(Eq(w, IntLit(1)), Eq(c, b0))))))
+		return tuple2(callee.Signature.Results(), &Val{T: Ite(empty, IntLit(0xFFFD), c), Typ: types.Typ[types.Rune]}, &Val{T: Ite(empty, IntLit(0), w), Typ: intT})
+	}
 	prelude["unicode/utf8.RuneStart"] = func(x *Exec, st *State, callee *ssa.Function, args []*Val, pos token.Pos) *Val {
 		x.trusted["A-UTF8"] = true
 		b := args[0].T
